@@ -377,8 +377,7 @@ def run_cross(chk, owner):
     nodes = {k: unq(v) for k, v in g.nodes.items()}
     paths = g.bfs_paths()
     budget = 2000 if quick else 30000
-    if len(paths) > budget:
-        paths = rnd.sample(paths, budget)
+    paths, _ = tlc.choose_paths(g, paths, budget, rnd)     # tree paths + non-tree edges, stratified (harness/tlc.py)
     jobs = [[nodes[i] for i in p] for p in paths]
     scfg = "MC_Deribit_sim.cfg" if quick else "MC_Deribit_simthorough.cfg"
     res, behs = tlc.simulate(SPEC, SPEC.parent / scfg, chk.tmp, num=96 if quick else 3000, depth=8 if quick else 10, seed=chk.seed,
